@@ -18,6 +18,9 @@ typedef struct {
 	ZSTD_CStream *cstrm;
 	ZSTD_DStream *dstrm;
 	bool compress;
+
+	/* decompressor only: the current frame is not completely decoded */
+	bool mid_stream;
 } xfrm_zstd_t;
 
 static const ZSTD_EndDirective zstd_action[] = {
@@ -64,6 +67,9 @@ static int process_data(xfrm_stream_t *stream, const void *in,
 		if (ZSTD_isError(ret))
 			return XFRM_STREAM_ERROR;
 
+		if (!zstd->compress)
+			zstd->mid_stream = (ret != 0);
+
 		in = (const char *)in + in_desc.pos;
 		in_size -= in_desc.pos;
 		*in_read += in_desc.pos;
@@ -74,6 +80,12 @@ static int process_data(xfrm_stream_t *stream, const void *in,
 
 		if (!flushed && in_size == 0 && ret == 0)
 			flushed = true;
+	}
+
+	/* the input ended in the middle of a compressed frame */
+	if (!zstd->compress && flush_mode == XFRM_STREAM_FLUSH_FULL &&
+	    in_size == 0 && zstd->mid_stream) {
+		return XFRM_STREAM_ERROR;
 	}
 
 	if (flush_mode != XFRM_STREAM_FLUSH_NONE) {
